@@ -34,7 +34,7 @@
 
 /* ----------------------------------------------------------------- configs --*/
 enum { M_SEQ, M_STACK, M_CONC };
-enum { J_WAITSCHED, J_LEGACY, J_LEGACY_X, J_SELFSET, J_BULK, J_STACKED };
+enum { J_WAITSCHED, J_LEGACY, J_LEGACY_X, J_SELFSET, J_SELFSET1, J_BULK, J_STACKED };
 typedef struct {
     const char *name;
     int quick;
@@ -58,21 +58,23 @@ static const cfg_t cfgs[] = {
       0 },
     { "I: ES1 BASIC_WAIT on user pools with pop_wait | primary creates+frees | X "
       "translates parked unit", 1, M_CONC, 0, J_WAITSCHED, 1, POL_FIFO, 0, 0 },
-    { "I: ES1 legacy loop (ABT_pool_pop + ABT_xstream_run_unit) on a legacy-def "
-      "pool | X creates unnamed units | primary translates", 1, M_CONC, 0, J_LEGACY,
-      1, POL_LIFO, 1, 0 },
     { "I: ES1 legacy loop runs units of SERVED with pool SERVED2 (re-association "
       "in ABT_xstream_run_unit) | primary creates+frees | X translates", 1, M_CONC,
       0, J_LEGACY_X, 1, POL_FIFO, 0, 0 },
-    { "I: ULT and tasklet call ABT_self_set_associated_pool(SERVED2) on ES1 | "
-      "primary creates+frees | X translates", 1, M_CONC, 0, J_SELFSET, 1, POL_FIFO,
-      0, 0 },
+    { "I: a ULT calls ABT_self_set_associated_pool(SERVED2) on ES1 | primary "
+      "creates+frees | X translates", 1, M_CONC, 0, J_SELFSET1, 1, POL_FIFO, 0, 0 },
     { "I: X pop_threads(parking) + push_threads(SERVED), frees | ES1 runs | "
       "primary creates and translates; unit addresses recycled", 1, M_CONC, 0,
       J_BULK, 1, POL_FIFO, 0, 1 },
-    { "I: primary adds a stacked legacy-loop scheduler to SERVED | ES1 legacy "
-      "loop | X translates", 1, M_CONC, 0, J_STACKED, 1, POL_FIFO, 0, 0 },
     /* thorough only */
+    { "I: ES1 legacy loop (ABT_pool_pop + ABT_xstream_run_unit) on a legacy-def "
+      "pool | X creates unnamed units | primary translates", 0, M_CONC, 0, J_LEGACY,
+      1, POL_LIFO, 1, 0 },
+    { "I: ULT and tasklet call ABT_self_set_associated_pool(SERVED2) on ES1 | "
+      "primary creates+frees | X translates", 0, M_CONC, 0, J_SELFSET, 1, POL_FIFO,
+      0, 0 },
+    { "I: primary adds a stacked legacy-loop scheduler to SERVED | ES1 legacy "
+      "loop | X translates", 0, M_CONC, 0, J_STACKED, 1, POL_FIFO, 0, 0 },
     { "S depth4: one bucket, FIFO pop", 0, M_SEQ, 4, 0, 1, POL_FIFO, 0, 0 },
     { "S depth4: one bucket, LIFO pop, unit addresses recycled", 0, M_SEQ, 4, 0, 1,
       POL_LIFO, 0, 1 },
@@ -1168,6 +1170,12 @@ static void scenario_conc(void)
             warm[nw] = 1;
             named[nn++] = new_work_unit(SERVED, 0, 1);
             expect_creates = 5;
+            break;
+        case J_SELFSET1:
+            x1 = abtmc_thread_create(observer, NULL);
+            warm[nw] = 1;
+            named[nn++] = new_work_unit(SERVED, 0, 1);
+            expect_creates = 3;
             break;
         case J_BULK:
             x1 = abtmc_thread_create(ext_bulk, NULL);
